@@ -71,11 +71,20 @@ func runC18(raw json.RawMessage, w *Writer) {
 		// ntp: the raw 32.32 value (diagnostic: binds the symbolic transcription NtpTimeApa to the code)
 		w.Emit(Ev{"ev": "capture", "t": c.T, "res": r, "back": instJ(back), "ntp": be64(raw)})
 	case "offset":
-		var got *time.Duration
+		var got, gotAgain, gotCopy *time.Duration
+		var wireBefore, wireAfter []byte
 		r, _ := guard(func() {
-			got = rtp.NewAbsCaptureTimeExtensionWithCaptureClockOffset(time.Unix(1700000000, 5), durOf(c.D)).EstimatedCaptureClockOffsetDuration()
+			x := rtp.NewAbsCaptureTimeExtensionWithCaptureClockOffset(time.Unix(1700000000, 5), durOf(c.D))
+			wireBefore, _ = x.Marshal()
+			got = x.EstimatedCaptureClockOffsetDuration()
+			// asking is not changing: the same question again, to a copy of the value, and the wire form afterwards
+			gotAgain = x.EstimatedCaptureClockOffsetDuration()
+			y := *x
+			gotCopy = y.EstimatedCaptureClockOffsetDuration()
+			wireAfter, _ = x.Marshal()
 		})
-		e := Ev{"ev": "offset", "d": Ev{"neg": c.D.Neg, "sec": c.D.Sec, "nsec": c.D.Nsec}, "res": r, "present": got != nil, "back": durJOf(0)}
+		e := Ev{"ev": "offset", "d": Ev{"neg": c.D.Neg, "sec": c.D.Sec, "nsec": c.D.Nsec}, "res": r, "present": got != nil, "back": durJOf(0),
+			"asked_again_same": got != nil && gotAgain != nil && gotCopy != nil && *gotAgain == *got && *gotCopy == *got && string(wireBefore) == string(wireAfter)}
 		if got != nil {
 			e["back"] = durJOf(*got)
 		}
